@@ -33,7 +33,8 @@ RowOK(e) ==
 ValOK(e) ==
   LET al == AllowedOf(ConfigViolations(e.kind, e.k, e.r, e.sb)) IN
   /\ e.validate \in al
-  /\ \A f \in {"validate_enc", "validate_dec", "new_enc", "new_dec", "rate_enc", "rate_dec", "rs_enc", "rs_dec"} :
+  /\ \A f \in {"validate_enc", "validate_dec", "new_enc", "new_dec", "rate_enc", "rate_dec", "rs_enc", "rs_dec",
+                  "reset_enc", "reset_dec", "rs_reset_enc", "rs_reset_dec"} :
         Has(e, f) => e[f] \in al
 
 EventOK(e) == CASE e.ev = "row" -> RowOK(e) [] e.ev = "val" -> ValOK(e) [] OTHER -> FALSE
